@@ -157,3 +157,14 @@ META["C19"] = dict(technique=_SC_TECH, note=_SC_NOTE,
 META["C23"] = dict(technique=_SC_TECH, note=_SC_NOTE,
     text="Assume/guarantee: SignalingClient.tla proves <>[] AllSendsDone under fairness against a relay that behaves as SignalingRelay.tla guarantees (re-opens with and without close, acks overtaken by re-opens). "
          "All 442 relay histories of length 6 are played against the real client with two concurrent Sends; after the relay stabilises every Send has returned successfully at quiescence.")
+REGISTRY["C26"] = ("fn", "c26")
+HOOK_COMMITS.append("5a0d27c")
+META["C26"] = dict(technique=_FN_TECH, note="The 'accepted only from the signaled peer' clause is decided by C03's expected-peer check of the QUIC session; the WebRTC data-channel path itself cannot be exercised offline.",
+    text="WebRtcSignal.tla: every signal kind encoded for a key decodes to exactly the original with that key only; other key, other context, every ciphertext region tampered / truncated / garbage => error, never another signal. "
+         "Opener.tla: for all pairs of distinct id strings (incl. prefixes) and seeded real peer ids exactly one side is the offerer (exported isOfferer).")
+REGISTRY["C40"] = ("fn", "c40")
+HOOK_COMMITS.append("a0586f6")
+META["C40"] = dict(technique=_FN_TECH,
+    note="This is model-driven structured mutation, not coverage-guided fuzzing; 'every byte string' is sampled by class. The WebRTC signal decoder is exercised by C26 (tamper / garbage classes).",
+    text="WireGrammar.tla enumerates decoder x malformed-frame class x variant; each case is built from a valid encoding and fed to the real decoder under recover with the allocation measured: "
+         "value or error, no panic, allocation bounded by the decoder's configured maximum plus slack even when a length prefix or an inner length field claims gigabytes.")
